@@ -275,6 +275,17 @@ def check_search(out, case):
                         out.add("C19/limit/count", query=ql, got=len(rl), want=min(n, len(r1)))
                     elif [int(r[2]) for r in rl] != sizes[:len(rl)]:
                         out.add("C19/limit/not-the-top-n", query=ql, got=[int(r[2]) for r in rl], want=sizes[:len(rl)])
+            elif case["q"].startswith("where-") and case["q"] not in ("where-dates", "where-dates-ne"):
+                # the same filter with LIMIT: N rows that pass it, members included, wherever they stand in their archive
+                n = case["n"]
+                ql = q1.replace(" into list", " limit %d into list" % n)
+                rl = c05.run_rows(out, base, ql, 6, "C19", cfg=cfg, clock=case["clock"])
+                if rl is not None:
+                    if len(rl) != min(n, len(r1)):
+                        out.add("C19/limit/filtered/count", query=ql, got=len(rl), want=min(n, len(r1)), passing=len(r1))
+                    elif collections.Counter(rl) - got:
+                        out.add("C19/limit/filtered/not-a-submultiset", query=ql)
+                    out.classes.append("filter+limit")
             elif case["q"] == "plain" and case["n"] <= 3:
                 ql = q1.replace(" into list", " limit %d into list" % case["n"])
                 rl = c05.run_rows(out, base, ql, 6, "C19", cfg=cfg, clock=case["clock"])
